@@ -1,0 +1,21 @@
+//go:build verif
+
+package lru
+
+import (
+	"reflect"
+	"unsafe"
+)
+
+// StopForSim ends the expiry goroutine of the underlying expirable LRU (the
+// library never closes its done channel), so that a simulated run which
+// created the cache can finish. The cache must not be used afterwards.
+func (c *IssuanceChainCache) StopForSim() {
+	f := reflect.ValueOf(c.cache).Elem().FieldByName("done")
+	if !f.IsValid() || f.IsNil() {
+		return
+	}
+	done := *(*chan struct{})(unsafe.Pointer(f.UnsafeAddr()))
+	defer func() { _ = recover() }() // closing twice is harmless here
+	close(done)
+}
